@@ -266,6 +266,13 @@ def purity(F, mon):
                     ("v * %r" % (x,), lambda v, x=x: v * x), ("v == %r" % (x,), lambda v, x=x: v == x), ("v < %r" % (x,), lambda v, x=x: v < x),
                     ("v << [%r]" % (x,), lambda v, x=x: v << [x]), ("v + [x]*3", lambda v, x=x: v + [x, x, x]), ("v + Vector", lambda v, x=x: v + Vector([x, x, x], name="o")),
                     ("v >> Vector", lambda v, x=x: v >> Vector([x, x, x], name="o")), ("v ** x", lambda v, x=x: v ** x), ("v / x", lambda v, x=x: v / x)]
+        # augmented assignment (v += x ...) is an ordinary binary operation whose result is bound to the name: the OBJECT
+        # the name pointed to (still held elsewhere: in a table, by another variable) is an operand like any other
+        for iname, ifn in (("+=", operator.iadd), ("-=", operator.isub), ("*=", operator.imul), ("/=", operator.itruediv), ("//=", operator.ifloordiv),
+                           ("%=", operator.imod), ("**=", operator.ipow), ("<<=", operator.ilshift), (">>=", operator.irshift), ("&=", operator.iand),
+                           ("|=", operator.ior), ("^=", operator.ixor), ("@=", operator.imatmul)):
+            for x in wide[kind][:3] + [[1, 2, 3]]:
+                ops.append(("v %s %r" % (iname, x), lambda v, ifn=ifn, x=x: ifn(v, x if not isinstance(x, list) else Vector(list(x)))))
         for oname, op in ops:
             for where in ("free vector", "table column"):
                 if where == "free vector":
@@ -288,10 +295,391 @@ def purity(F, mon):
     return ex
 
 
+def grid2d(F, mon):
+    """C02 / C07 / C08: t[rows, cols] read and written with every combination of key kinds against the plain grid of cells
+    (Python list semantics on both axes).  A combination the library rejects is fine as long as nothing changed."""
+    ex = 0
+    shapes = {"4x3": {"a": [1, 2, 3, 4], "b": [10, 20, 30, 40], "c": [5, 6, 7, 8]}, "1x1": {"a": [1]},
+              "3x2 nullable": {"a": [1, None, 3], "b": [None, 20, 30]}}
+    for sname, cols0 in shapes.items():
+        names = list(cols0)
+        nr, nc = len(cols0[names[0]]), len(names)
+        rows = {"int": 0, "last": nr - 1, "neg": -1, "-n": -nr, "slice": slice(1, 3), "rev": slice(None, None, -1), "step": slice(0, nr, 2),
+                "all": slice(None), "empty": slice(nr, 0), "tail": slice(-2, None), "beyond": slice(1, nr + 5)}
+        colks = {"int": 0, "neg": -1, "name": names[-1], "slice": slice(0, 2), "names": tuple(names[::2]), "all": slice(None), "rev": slice(None, None, -1),
+                 "step": slice(0, nc, 2), "empty": slice(nc, 0)}
+        wcolks = dict(colks, lnames=list(names[::2]), ints=tuple(range(0, nc, 2)), lints=list(range(0, nc, 2)))
+        # row keys accepted by item ASSIGNMENT only: masks and index lists in every container
+        msk = [i % 2 == 0 for i in range(nr)]
+        wrows = dict(rows, lmask=list(msk), vmask=Vector(list(msk)), ilist=[0, nr - 1], ivec=Vector([0, nr - 1]), ituple=(0, nr - 1),
+                     nomask=[False] * nr, neglist=[-1])
+
+        def col_positions(ck, c):
+            if isinstance(c, int) and not isinstance(c, bool):
+                return [c % nc], True
+            if isinstance(c, str):
+                return [names.index(c)], True
+            if isinstance(c, slice):
+                return list(range(nc))[c], False
+            if all(isinstance(x, str) for x in c):
+                return [names.index(x) for x in c], False
+            return [x % nc for x in c], False
+
+        def row_positions(r):
+            if isinstance(r, int):
+                return [r % nr], True
+            if isinstance(r, slice):
+                return list(range(nr))[r], False
+            items = list(r)
+            if items and all(isinstance(x, bool) for x in items):
+                return [i for i, f in enumerate(items) if f], False
+            return [x % nr for x in items], False
+        for rk, r in wrows.items():
+            rp, rs = row_positions(r)
+            for ck, c in wcolks.items():
+                cp, cs = col_positions(ck, c)
+                grid = [list(cols0[nm]) for nm in names]
+                case = {"table": sname, "rows": rk, "cols": ck}
+                # ---- read
+                if ck in colks and rk in rows:
+                    t = Table({k: list(v) for k, v in cols0.items()})
+                    before = table_view(t)
+                    st, x, e = attempt(lambda: t[r, c])
+                    ex += 1
+                    if st == "ok":
+                        def cells(obj):
+                            if isinstance(obj, Table):
+                                return [list(col) for col in obj.cols()]
+                            if isinstance(obj, Vector):
+                                return list(obj)
+                            return [obj]
+                        if not rs and not cs:
+                            got, exp = cells(x), [[grid[j][i] for i in rp] for j in cp]
+                            empty = not rp or not cp
+                        else:
+                            got = cells(x)
+                            exp = [grid[j][i] for j in cp for i in rp]
+                            empty = not exp
+                        if empty:
+                            flat = got if not (got and isinstance(got[0], list)) else [v for col in got for v in col]
+                            if flat:
+                                F.add("grid_read", case, got, "an empty selection")
+                        elif not views_equal(got, exp):
+                            F.add("grid_read", case, got, exp)
+                    if not views_equal(table_view(t), before):
+                        F.add("operands_unchanged", case, "t[rows, cols] changed the table", "unchanged")
+                # ---- write: scalar, and one value per addressed cell
+                for vname in ("scalar", "shaped"):
+                    t = Table({k: list(v) for k, v in cols0.items()})
+                    before = table_view(t)
+                    if vname == "scalar":
+                        value = 99
+                        newgrid = [list(col) for col in grid]
+                        for j in cp:
+                            for i in rp:
+                                newgrid[j][i] = 99
+                    else:
+                        vals = [[900 + 10 * jj + ii for ii in range(len(rp))] for jj in range(len(cp))]
+                        newgrid = [list(col) for col in grid]
+                        for jj, j in enumerate(cp):
+                            for ii, i in enumerate(rp):
+                                newgrid[j][i] = vals[jj][ii]
+                        if rs and cs:
+                            continue
+                        if rs:
+                            value = [v[0] for v in vals]             # one row: a flat list, one value per column
+                        elif cs:
+                            value = list(vals[0])                    # one column: a flat list, one value per row
+                        else:
+                            value = [list(v) for v in vals]          # a region: list of columns
+                        if len(set(cp)) != len(cp) or len(set(rp)) != len(rp):
+                            continue
+                    st, _, e = attempt(lambda: t.__setitem__((r, c), value))
+                    ex += 1
+                    got = [list(col) for col in t.cols()]
+                    wcase = dict(case, value=vname)
+                    if st != "ok":
+                        if not views_equal(table_view(t), before):
+                            F.add("grid_atomic", wcase, got, grid)
+                        continue
+                    if not views_equal(got, newgrid):
+                        F.add("grid_write", wcase, got, newgrid)
+                    if len({len(col) for col in got}) > 1 or len(t) != nr:
+                        F.add("rectangular", wcase, [len(col) for col in got], nr)
+                    if t.column_names() != names:
+                        F.add("names", wcase, t.column_names(), names)
+    return ex
+
+
+def held_views(F, mon):
+    """C01 (and C02 / C03 / C07): everything DERIVED from a table or vector is an independent value.
+       (a) derive, do not look, write the source in every way, then look: the derived object shows the cells of the moment
+           it was derived (rows taken with t[i] and not read yet, all rows held at once, slices, masks, selections, T, sorts, casts ...);
+       (b) write THROUGH the derived object: the source is unchanged;
+       (c) the same derivation asked twice gives two objects that can both be written and do not see each other.
+       After the write everything is derived again and must show the new cells with truthful dtypes (C03)."""
+    ex = 0
+    base = {"a": [1, 2, 3], "b": ["p", "q", "r"], "o": [1, "x", 2.5]}
+
+    def rows_of(cols):
+        return [[cols[k][i] for k in cols] for i in range(3)]
+    derivs = {
+        "t[1] (unread Row)": (lambda t: t[1], lambda g: list(rows_of(g)[1])),
+        "t[-1]": (lambda t: t[-1], lambda g: list(rows_of(g)[2])),
+        "[t[i] for i] (all rows held)": (lambda t: [t[i] for i in range(3)], lambda g: rows_of(g)),
+        # (not list(iter(t)): the iterator of the pinned tree deliberately re-points ONE Row object - "no object creation in the
+        #  loop" - so rows kept from one iteration all show the last row; the statement compares rows as they are obtained)
+        "[tuple(r) for r in t]": (lambda t: [tuple(r) for r in t], lambda g: [tuple(r) for r in rows_of(g)]),
+        "next(iter(t))": (lambda t: next(iter(t)), lambda g: rows_of(g)[0]),
+        "t[1:]": (lambda t: t[1:], lambda g: [g[k][1:] for k in g]),
+        "t[::-1]": (lambda t: t[::-1], lambda g: [g[k][::-1] for k in g]),
+        "t[mask]": (lambda t: t[[True, False, True]], lambda g: [[g[k][0], g[k][2]] for k in g]),
+        "t[('a','o')]": (lambda t: t[("a", "o")], lambda g: [g["a"], g["o"]]),
+        "t[0:2, 'a']": (lambda t: t[0:2, "a"], lambda g: g["a"][0:2]),
+        "t[1, :]": (lambda t: t[1, :], lambda g: rows_of(g)[1]),
+        "t.copy()": (lambda t: t.copy(), lambda g: [g[k] for k in g]),
+        "t.T": (lambda t: t.T, lambda g: rows_of(g)),
+        "t >> vec": (lambda t: t >> Vector([7, 8, 9], name="z"), lambda g: [g[k] for k in g] + [[7, 8, 9]]),
+        "t << row": (lambda t: t << [9, "s", 9], lambda g: [g["a"] + [9], g["b"] + ["s"], g["o"] + [9]]),
+        "t.sort_by('a', reverse=True)": (lambda t: t.sort_by("a", reverse=True), None),
+        "t.a[:]": (lambda t: t.a[:], lambda g: g["a"]),
+        "t.a.copy()": (lambda t: t.a.copy(), lambda g: g["a"]),
+        "t.a + 0": (lambda t: t.a + 0, lambda g: g["a"]),
+        "t.a.to_object()": (lambda t: t.a.to_object(), lambda g: g["a"]),
+        "t.o.to_object()": (lambda t: t.o.to_object(), lambda g: g["o"]),
+        "t.o.copy()": (lambda t: t.o.copy(), lambda g: g["o"]),
+        "t.a.cast(float)": (lambda t: t.a.cast(float), lambda g: [None if x is None else float(x) for x in g["a"]]),
+        "t.b.cast(str)": (lambda t: t.b.cast(str), lambda g: g["b"]),
+        "t.a.fillna(0)": (lambda t: t.a.fillna(0), lambda g: [0 if x is None else x for x in g["a"]]),
+        "t.a.dropna()": (lambda t: t.a.dropna(), lambda g: [x for x in g["a"] if x is not None]),
+        "t.a.unique()": (lambda t: t.a.unique(), lambda g: g["a"]),
+        "t.a.sort_by()": (lambda t: t.a.sort_by(), lambda g: sorted(x for x in g["a"] if x is not None) + [x for x in g["a"] if x is None]),
+        "t.a << []": (lambda t: t.a << [], lambda g: g["a"]),
+        "t.a.T": (lambda t: t.a.T, lambda g: g["a"]),
+    }
+    writes = {
+        "t[1, 'a'] = 99": (lambda t: t.__setitem__((1, "a"), 99), lambda g: g["a"].__setitem__(1, 99)),
+        "t.a[1] = 99": (lambda t: t.a.__setitem__(1, 99), lambda g: g["a"].__setitem__(1, 99)),
+        "t[1] = row": (lambda t: t.__setitem__(1, [99, "CH", 99]), lambda g: [g[k].__setitem__(1, x) for k, x in zip(g, [99, "CH", 99])]),
+        "t.a[1] = 2.5 (promotes)": (lambda t: t.a.__setitem__(1, 2.5), lambda g: g.__setitem__("a", [1.0, 2.5, 3.0])),
+        "t[1, 'a'] = None": (lambda t: t.__setitem__((1, "a"), None), lambda g: g["a"].__setitem__(1, None)),
+        "t.a = new column": (lambda t: setattr(t, "a", [7, 8, 9]), lambda g: g.__setitem__("a", [7, 8, 9])),
+        "t[:, 'o'] = 0": (lambda t: t.__setitem__((slice(None), "o"), 0), lambda g: g.__setitem__("o", [0, 0, 0])),
+        "t.o[0] = 'zero'": (lambda t: t.o.__setitem__(0, "zero"), lambda g: g["o"].__setitem__(0, "zero")),
+    }
+
+    def look(obj):
+        if isinstance(obj, list):
+            return [look(x) for x in obj]
+        if isinstance(obj, Table):
+            return [list(c) for c in obj.cols()]
+        if isinstance(obj, Vector):
+            return list(obj)
+        return obj
+    for dname, (derive, expect) in derivs.items():
+        for wname, (write, gwrite) in writes.items():
+            t = Table({k: list(v) for k, v in base.items()})
+            grid = {k: list(v) for k, v in base.items()}
+            st, d, e = attempt(lambda: derive(t))
+            if st != "ok":
+                continue
+            st, _, e = attempt(lambda: write(t))
+            ex += 1
+            if st != "ok":
+                continue
+            case = {"derived by": dname, "then written": wname}
+            if expect is not None:
+                exp = expect(grid)
+                got = look(d)
+                if not views_equal(got, exp):
+                    F.add("derived_independent", case, got, exp)
+            # derive again: the new cells, truthful dtypes
+            gwrite(grid)
+            st, d2, e = attempt(lambda: derive(t))
+            if st == "ok" and expect is not None:
+                exp2 = expect(grid)
+                if not views_equal(look(d2), exp2):
+                    F.add("derived_current", case, look(d2), exp2)
+            if st == "ok":
+                for x in (d2 if isinstance(d2, list) else [d2]):
+                    if isinstance(x, Vector):
+                        mon.see(x, "derived after a write: " + dname)
+                        if not isinstance(x, Table) and len(x) > 1:
+                            try:
+                                mon.see(x[0:2], "slice of " + dname)
+                            except Exception:      # noqa: BLE001
+                                pass
+        # (b) write through the derived object; (c) twice
+        t = Table({k: list(v) for k, v in base.items()})
+        before = table_view(t)
+        st, d, e = attempt(lambda: derive(t))
+        st2, d2, e2 = attempt(lambda: derive(t))
+        if st != "ok" or st2 != "ok":
+            continue
+        ex += 1
+        case = {"derived by": dname}
+        objs = d if isinstance(d, list) else [d]
+        objs2 = d2 if isinstance(d2, list) else [d2]
+        for x, y in zip(objs, objs2):
+            if x is y and isinstance(x, Vector):
+                F.add("derived_independent", case, "the same derivation twice returned one object", "two objects")
+            if isinstance(x, Vector) and type(x).__name__ != "Row" and len(x) > 0:
+                snap = look(y)
+                try:
+                    if isinstance(x, Table):
+                        x[0, 0] = x.cols()[0][0]
+                        x[0, 0] = 99
+                    else:
+                        keep = list(x)[0]
+                        x[0] = keep
+                        x[0] = 99 if not isinstance(keep, str) else "CH"
+                except Exception as ex_:      # noqa: BLE001
+                    if type(ex_).__name__ == "AliasError":
+                        F.add("derived_independent", case, "AliasError writing a derived object (a second, equal derivation is alive)", "writable")
+                    continue
+                if not views_equal(look(y), snap):
+                    F.add("derived_independent", case, {"the twin derivation changed": look(y)}, snap)
+        if not views_equal(table_view(t), before):
+            F.add("derived_independent", case, {"writing the derived object changed the source": table_view(t)}, before)
+    # homogeneous tables: a row has a dtype of its own (<int>); a promoting / None write must be visible in the dtype of every
+    # row (and slice of a row) taken afterwards, whatever was read before
+    for wname, write, newcol in (("t.a[1] = 2.5", lambda t: t.a.__setitem__(1, 2.5), [1.0, 2.5, 3.0]), ("t[1, 'a'] = None", lambda t: t.__setitem__((1, "a"), None), [1, None, 3]),
+                                 ("t[1] = [2.5, None]", lambda t: t.__setitem__(1, [2.5, None]), None), ("t.a = floats", lambda t: setattr(t, "a", [1.5, 2.5, 3.5]), [1.5, 2.5, 3.5])):
+        for pre in ("nothing", "t[1]", "for r in t", "t[0][0:2]"):
+            t = Table({"a": [1, 2, 3], "x": [4, 5, 6]})
+            if pre == "t[1]":
+                list(t[1])
+            elif pre == "for r in t":
+                [tuple(r) for r in t]
+            elif pre == "t[0][0:2]":
+                list(t[0][0:2])
+            st, _, e = attempt(lambda: write(t))
+            ex += 1
+            if st != "ok":
+                continue
+            for i in range(3):
+                for label, mk in (("t[%d]" % i, lambda: t[i]), ("t[%d][0:2]" % i, lambda: t[i][0:2]), ("t[%d][[0, 1]]" % i, lambda: t[i][[0, 1]]), ("t[%d, :]" % i, lambda: t[i, :])):
+                    st, r, e = attempt(mk)
+                    if st == "ok" and isinstance(r, Vector):
+                        exp = [list(c)[i] for c in t.cols()]
+                        if not views_equal(list(r), exp):
+                            F.add("derived_current", {"read before": pre, "written": wname, "taken": label}, list(r), exp)
+                        mon.see(r, "row after '%s' (read before: %s)" % (wname, pre))
+    return ex
+
+
+def history_reads(F, mon):
+    """read - write - write - read (and read - write - read): whatever a value-returning operation, a broadcast method or a
+    broadcast property answered before, after the writes it answers what a freshly built vector with the current cells answers"""
+    from datetime import datetime
+    ex = 0
+    kinds = {"int": ([3, 1, 2], [7, 9]), "float": ([1.5, 0.5, 2.5], [7.5, 9.25]), "str": (["b", "a", "c"], ["zz", "Q q"]),
+             "date": ([date(2020, 1, 2), date(2019, 5, 6), date(2021, 7, 8)], [date(1999, 12, 31), date(2024, 2, 29)]),
+             "datetime": ([datetime(2020, 1, 2, 3), datetime(2019, 5, 6, 7), datetime(2021, 7, 8, 9)], [datetime(1999, 12, 31, 23), datetime(2024, 2, 29, 1)]),
+             "bool": ([True, False, True], [False, True]), "int?": ([3, None, 2], [7, None])}
+    reads = {"list": lambda v: list(v), "repr": lambda v: repr(v), "fingerprint": lambda v: v.fingerprint(), "sum": lambda v: v.sum(), "max": lambda v: v.max(),
+             "min": lambda v: v.min(), "mean": lambda v: v.mean(), "stdev": lambda v: v.stdev(), "sort_by": lambda v: list(v.sort_by()), "unique": lambda v: list(v.unique()),
+             "isna": lambda v: list(v.isna()), "neg": lambda v: list(-v), "v == v[0]": lambda v: list(v == list(v)[0]), "v + v": lambda v: list(v + v),
+             "argsort": lambda v: v.argsort(), "cast(str)": lambda v: list(v.cast(str)), "to_object": lambda v: list(v.to_object()), "any": lambda v: v.any()}
+    for attr in ("year", "month", "day", "hour", "real", "imag", "numerator", "weekday", "isoformat", "upper", "lower", "strip", "title", "bit_length",
+                 "is_integer", "conjugate", "toordinal", "isdigit", "capitalize", "date"):
+        reads["." + attr] = (lambda v, attr=attr: (lambda r: list(r() if callable(r) else r))(getattr(v, attr)))
+    for kind, (vals, news) in kinds.items():
+        for rname, read in reads.items():
+            for hist in ("r w w r", "r w r", "r w w-back r", "r w r w r"):
+                v = Vector(list(vals), name="h")
+                cur = list(vals)
+                st0, _, _ = attempt(lambda: read(v))
+                if st0 != "ok":
+                    break
+                steps = hist.split()[1:]
+                ok = True
+                k = 0
+                for stp in steps:
+                    if stp == "w":
+                        x = news[k % len(news)]
+                        k += 1
+                        try:
+                            v[0] = x
+                        except Exception:      # noqa: BLE001
+                            ok = False
+                            break
+                        cur[0] = x
+                    elif stp == "w-back":
+                        v[0] = vals[0]
+                        cur[0] = vals[0]
+                    else:
+                        st, got, e = attempt(lambda: read(v))
+                        stf, exp, ef = attempt(lambda: read(Vector(list(cur), name="h")))
+                        ex += 1
+                        if st != stf or (st == "ok" and not views_equal(got, exp) and repr(got) != repr(exp)):
+                            F.add("history_read", {"kind": kind, "read": rname, "history": hist}, got if st == "ok" else type(e).__name__,
+                                  exp if stf == "ok" else type(ef).__name__)
+                if not ok:
+                    continue
+    return ex
+
+
+def odd_operands(F, mon):
+    """scalars that are iterable (bytes, bytearray, str) are scalars; a None scalar compares; one-position index selections;
+    the positional order of the aggregation arguments"""
+    ex = 0
+    for vals, x, op in (([2, 3], b"ab", operator.mul), ([2, 3], bytearray(b"ab"), operator.mul), ([2, 3], "ab", operator.mul), ([b"ab", b"cd"], b"ef", operator.add),
+                        (["ab", "cd"], "ef", operator.add), ([b"ab", b"cd"], b"ab", operator.eq), (["ab", "cd"], "ab", operator.eq), ([b"a", b"b"], b"b", operator.lt)):
+        for side in ("v op x", "x op v"):
+            try:
+                exp = [op(e, x) if side == "v op x" else op(x, e) for e in vals]
+            except Exception:      # noqa: BLE001
+                continue
+            st, r, e = attempt(lambda: op(Vector(list(vals)), x) if side == "v op x" else op(x, Vector(list(vals))))
+            ex += 1
+            if st == "ok" and isinstance(r, Vector) and not views_equal(list(r), exp):
+                F.add("form_elementwise", {"values": repr(vals), "scalar": repr(x), "op": op.__name__, "written": side}, list(r), exp)
+    for vals in ([1, None, 3], ["a", None], [None, None], [1.5, 2.5]):
+        for opn, op in (("eq", operator.eq), ("ne", operator.ne)):
+            st, r, e = attempt(lambda: op(Vector(list(vals)), None))
+            ex += 1
+            exp = [False if e_ is None else op(e_, None) for e_ in vals]
+            if st != "ok" or not isinstance(r, Vector) or list(r) != exp:
+                F.add("form_compare_none", {"values": repr(vals), "op": opn, "scalar": None}, list(r) if st == "ok" and isinstance(r, Vector) else repr(e or r), exp)
+    # one-position index selections (cells that are themselves iterable: strings, lists)
+    for vals in (["ab", "cd", "ef"], [[1, 2], [3], [4, 5, 6]], [1, 2, 3], [(1, 2), (3, 4), (5, 6)]):
+        for key in ([1], [-1], [0, 0], [2, 0]):
+            for kf, mk in (("list", lambda: list(key)), ("Vector", lambda: Vector(list(key)))):
+                st, r, e = attempt(lambda: Vector(list(vals), name="v")[mk()])
+                ex += 1
+                exp = [vals[i] for i in key]
+                if st == "ok" and (not isinstance(r, Vector) or not views_equal(list(r), exp)):
+                    F.add("form_index", {"values": repr(vals), "key": key, "key form": kf}, list(r) if isinstance(r, Vector) else repr(r), exp)
+                t = Table({"s": list(vals), "n": [10, 20, 30]})
+                st, r, e = attempt(lambda: t[mk()])
+                ex += 1
+                if st == "ok" and r is not None:
+                    exp_t = [[vals[i] for i in key], [[10, 20, 30][i] for i in key]]
+                    if not isinstance(r, Table) or not views_equal([list(c) for c in r.cols()], exp_t):
+                        F.add("form_index", {"table column": repr(vals), "key": key, "key form": kf}, view(r), exp_t)
+    # positional order of the aggregation arguments: (over, sum, mean, min, max, stdev, count, apply)
+    order = ["sum", "mean", "min", "max", "stdev", "count"]
+    for method in ("aggregate", "window"):
+        for i, f in enumerate(order):
+            t = Table({"k": ["a", "b", "a", "b", "a"], "x": [1, 2, 4, 8, 16]})
+            args = [None] * 6
+            args[i] = "x"
+            st, r, e = attempt(lambda: getattr(t, method)("k", *args))
+            st0, r0, e0 = attempt(lambda: getattr(t, method)("k", **{f + "_over": "x"}))
+            ex += 1
+            if st0 != "ok":
+                continue
+            if st != "ok" or not views_equal(table_view(r), table_view(r0)):
+                F.add("form_" + method, {"call": "%s('k', %s)" % (method, ", ".join(repr(a) for a in args)), "position": i + 2, "means": f + "_over"},
+                      view(r) if st == "ok" else type(e).__name__, view(r0))
+    return ex
+
+
 def main():
     out = sys.argv[1]
     F, mon = Fails(), Monitor()
-    ex = elementwise(F, mon) + indexing(F, mon) + relational(F, mon) + purity(F, mon)
+    ex = elementwise(F, mon) + indexing(F, mon) + relational(F, mon) + purity(F, mon) + grid2d(F, mon) + held_views(F, mon) + history_reads(F, mon) + odd_operands(F, mon)
     json.dump({"executed": ex, "failures": F.items, "per_clause": F.per, "skipped": {}, **mon.dump()}, open(out, "w"), default=str)
 
 
